@@ -1,7 +1,318 @@
 import M3d.Basic
-/-! Line-protocol handler for C10. Core-only. (stub) -/
-namespace M3d.Drv.C10
+import M3d.Model.Surface
+import M3d.Model.MeshOps
+/-!
+Line-protocol handler for C10.  Core-only.
 
-def handleAll (ws : List String) : Option String := none
+One line = one REAL operation of a chain:
+
+    <kind> P <np> <params…> I <n> <a,b,c>… O <m> <a,b,c>… | O timeout | O panic:… K <k> <ids…> [C <c> <id x y z>…]
+
+`I`/`O` are the input and the real output mesh as id soups (ids = distinct coordinates), `K`
+the vertices the keep-filter protects, `C` exact rational coordinates (only in exact mode).
+The answer is `ok` iff the output satisfies what the property demands of that operation, as
+judged by the proved deciders of `M3d.Surface` (closed manifold, Euler characteristic) and by
+the models of `M3d.MeshOps` (vertex placement, volume/area) — otherwise `FAIL <failed checks>`.
+The harness's expected column is the constant `ok`.
+-/
+namespace M3d.Drv.C10
+open M3d M3d.Surface M3d.MeshOps
+
+abbrev P3 := V3 Rat
+abbrev P2 := V2 Rat
+
+structure Line where
+  kind : String
+  params : List String
+  inp : List String
+  out : List String          -- tokens, or a single status token
+  status : String            -- "ok" | "timeout" | "panic:…"
+  keep : List Nat
+  coords : List String
+
+def takeSection (marker : String) (ws : List String) : Option (List String × List String) :=
+  match ws with
+  | m :: n :: rest =>
+    if m ≠ marker then none else
+    match n.toNat? with
+    | some k => if rest.length < k then none else some (rest.take k, rest.drop k)
+    | none => none
+  | _ => none
+
+def parseLine (ws : List String) : Option Line := do
+  let kind ← ws.head?
+  let (params, r) ← takeSection "P" ws.tail
+  let (inp, r) ← takeSection "I" r
+  match r with
+  | "O" :: tok :: r2 =>
+    let (out, status, r3) ←
+      match tok.toNat? with
+      | some k => if r2.length < k then none else some (r2.take k, "ok", r2.drop k)
+      | none => some ([], tok, r2)
+    let (keep, r4) ← takeSection "K" r3
+    let keep ← keep.mapM (·.toNat?)
+    let coords := match r4 with
+      | "C" :: n :: rest => match n.toNat? with
+        | some _ => rest
+        | none => []
+      | _ => []
+    some { kind, params, inp, out, status, keep, coords }
+  | _ => none
+
+def parseTri (s : String) : Option Tri :=
+  match (s.splitOn ",").mapM (·.toNat?) with
+  | some [a, b, c] => some (a, b, c)
+  | _ => none
+
+def parseSeg (s : String) : Option Seg :=
+  match (s.splitOn ",").mapM (·.toNat?) with
+  | some [a, b] => some (a, b)
+  | _ => none
+
+def verdict (checks : List (String × Bool)) : String :=
+  let bad := checks.filter (fun c => !c.2)
+  if bad.isEmpty then "ok" else "FAIL " ++ " ".intercalate (bad.map fun c => c.1 ++ "=0")
+
+def subset (xs ys : List Nat) : Bool := xs.all ys.contains
+
+/-! ### coordinates -/
+
+partial def parseCoords3 (ws : List String) (acc : Array (Option P3)) : Option (Array (Option P3)) :=
+  match ws with
+  | [] => some acc
+  | id :: x :: y :: z :: rest => do
+    let id ← id.toNat?
+    let x ← parseRat x; let y ← parseRat y; let z ← parseRat z
+    let acc := if acc.size ≤ id then acc ++ Array.replicate (id + 1 - acc.size) none else acc
+    parseCoords3 rest (acc.set! id (some ⟨x, y, z⟩))
+  | _ => none
+
+partial def parseCoords2 (ws : List String) (acc : Array (Option P2)) : Option (Array (Option P2)) :=
+  match ws with
+  | [] => some acc
+  | id :: x :: y :: rest => do
+    let id ← id.toNat?
+    let x ← parseRat x; let y ← parseRat y
+    let acc := if acc.size ≤ id then acc ++ Array.replicate (id + 1 - acc.size) none else acc
+    parseCoords2 rest (acc.set! id (some ⟨x, y⟩))
+  | _ => none
+
+def z3 : P3 := ⟨0, 0, 0⟩
+def z2 : P2 := ⟨0, 0⟩
+def at3 (cs : Array (Option P3)) (i : Nat) : P3 := (cs.getD i none).getD z3
+def at2 (cs : Array (Option P2)) (i : Nat) : P2 := (cs.getD i none).getD z2
+
+def lt3 (a b : P3) : Bool := a.x < b.x || (a.x == b.x && (a.y < b.y || (a.y == b.y && a.z < b.z)))
+def lt2 (a b : P2) : Bool := a.x < b.x || (a.x == b.x && a.y < b.y)
+
+abbrev CTri := P3 × P3 × P3
+abbrev CSeg := P2 × P2
+
+/-- Rotate so that the smallest corner comes first (orientation kept). -/
+def canonTri (t : CTri) : CTri :=
+  let (a, b, c) := t
+  if (lt3 b a) && !(lt3 c b) then (b, c, a)
+  else if (lt3 c a) && (lt3 c b) then (c, a, b)
+  else (a, b, c)
+
+def ltTri (s t : CTri) : Bool :=
+  lt3 s.1 t.1 || (s.1 == t.1 && (lt3 s.2.1 t.2.1 || (s.2.1 == t.2.1 && lt3 s.2.2 t.2.2)))
+
+def ltSeg (s t : CSeg) : Bool := lt2 s.1 t.1 || (s.1 == t.1 && lt2 s.2 t.2)
+
+def sameTris (xs ys : List CTri) : Bool :=
+  let a := (xs.map canonTri).toArray.qsort ltTri
+  let b := (ys.map canonTri).toArray.qsort ltTri
+  a == b
+
+def sameSegs (xs ys : List CSeg) : Bool :=
+  xs.toArray.qsort ltSeg == ys.toArray.qsort ltSeg
+
+def toC3 (cs : Array (Option P3)) (ts : List Tri) : List CTri :=
+  ts.map fun t => (at3 cs t.1, at3 cs t.2.1, at3 cs t.2.2)
+
+def toC2 (cs : Array (Option P2)) (ss : List Seg) : List CSeg :=
+  ss.map fun s => (at2 cs s.1, at2 cs s.2)
+
+/-- Distinct neighbours of `v` in a triangle soup. -/
+def nbrs3 (ts : List Tri) (v : Nat) : List Nat :=
+  ((ts.filter fun t => (triVerts t).contains v).flatMap triVerts).eraseDups.filter (· != v)
+
+/-- The two corners opposite to the undirected edge `a b`. -/
+def opposite (ts : List Tri) (a b : Nat) : List Nat :=
+  (ts.filter fun t => (triVerts t).contains a && (triVerts t).contains b).flatMap fun t =>
+    (triVerts t).filter fun c => c != a && c != b
+
+/-- The model's Loop subdivision of a coordinate mesh (exact arithmetic). -/
+def loopModel (cs : Array (Option P3)) (ts : List Tri) : List CTri :=
+  let corner := fun v => loopCorner (at3 cs v) ((nbrs3 ts v).map (at3 cs))
+  let edge := fun a b =>
+    match opposite ts a b with
+    | [o1, o2] => loopEdge (at3 cs a) (at3 cs b) (at3 cs o1) (at3 cs o2)
+    | _ => z3
+  ts.flatMap fun (a, b, c) =>
+    let c1 := corner a; let c2 := corner b; let c3 := corner c
+    let m1 := edge a b; let m2 := edge b c; let m3 := edge c a
+    [(m1, m2, m3), (c1, m1, m3), (m1, c2, m2), (m3, m2, c3)]
+
+def blurModel (rate : Rat) (cs : Array (Option P3)) (ts : List Tri) : List CTri :=
+  let pt := fun v =>
+    let ns := (nbrs3 ts v).map (at3 cs)
+    if rate == -1 then blurPointMean (at3 cs v) ns else blurPoint rate (at3 cs v) ns
+  ts.map fun (a, b, c) => (pt a, pt b, pt c)
+
+/-! ### 3-D kinds -/
+
+def handle3 (l : Line) : Option String := do
+  let inp ← l.inp.mapM parseTri
+  if l.status ≠ "ok" then
+    return (if l.status = "timeout" then "FAIL terminates=0" else "FAIL no-panic=0")
+  let out ← l.out.mapM parseTri
+  let vin := verts inp
+  let vout := verts out
+  let base : List (String × Bool) :=
+    [("edge-balanced", edgeBalanced out), ("fan-connected", fanConnected out), ("no-degenerate-face", noDegenerate out),
+     ("simple", noDupFace out), ("same-chi", euler out == euler inp)]
+  let cs ← parseCoords3 l.coords #[]
+  let hasGeom := l.params.contains "geom"
+  match l.kind with
+  | "init3" => some (verdict [("closed-manifold", closedManifold inp), ("simple", noDupFace inp)])
+  | "decimate3" | "elimcoplanar3" =>
+    let vol := if l.params.contains "vol" then
+        [("volume-equal", volume6 (toC3 cs out) == volume6 (toC3 cs inp))] else []
+    some (verdict (base ++ [("no-new-vertices", subset vout vin), ("keep-filter", subset l.keep vout)] ++ vol))
+  | "elimedges3" => some (verdict base)
+  | "flip3" =>
+    some (verdict (base ++ [("same-vertices", subset vout vin && subset vin vout), ("same-faces", out.length == inp.length)]))
+  | "subdivedges3" =>
+    let n ← (← l.params.head?).toNat?
+    let e := numE inp
+    let geom := if hasGeom then
+        [("placement", sameTris (subdivideEdges n z3 (toC3 cs inp)) (toC3 cs out)),
+         ("volume-equal", volume6 (toC3 cs out) == volume6 (toC3 cs inp))] else []
+    some (verdict (base ++ [("faces=n²F", out.length == n * n * inp.length),
+      ("verts=V+(n-1)E+F(n-1)(n-2)/2", vout.length == vin.length + (n - 1) * e + inp.length * ((n - 1) * (n - 2) / 2)),
+      ("old-vertices-kept", subset vin vout)] ++ geom))
+  | "loop3" =>
+    let geom := if hasGeom then [("loop-masks", sameTris (loopModel cs inp) (toC3 cs out))] else []
+    some (verdict (base ++ [("faces=4F", out.length == 4 * inp.length), ("verts=V+E", vout.length == vin.length + numE inp)] ++ geom))
+  | "subdivider3" =>
+    let k ← (← l.params.head?).toNat?
+    some (verdict (base ++ [("faces=F+2L", out.length == inp.length + 2 * k), ("verts=V+L", vout.length == vin.length + k),
+      ("old-vertices-kept", subset vin vout)]))
+  | "blur3" =>
+    let geom ← if hasGeom then do
+        let rate ← parseRat (← l.params[1]?)
+        pure [("blur-rule", sameTris (blurModel rate cs inp) (toC3 cs out))]
+      else pure []
+    if l.params.contains "noninj" then
+      -- hypothesis of relabel_preserves (injective vertex map) fails on this input
+      return verdict ([("claimed-noninjective", decide (vout.length < vin.length))] ++ geom)
+    some (verdict (base ++ [("same-faces", out.length == inp.length), ("same-vertex-count", vout.length == vin.length)] ++ geom))
+  | "smooth3" | "arap3" | "flatten3" =>
+    if l.params.contains "noninj" then
+      return verdict [("claimed-noninjective", decide (vout.length < vin.length))]
+    some (verdict (base ++ [("same-faces", out.length == inp.length), ("same-vertex-count", vout.length == vin.length)]))
+  | _ => none
+
+/-! ### 2-D kinds -/
+
+/-- Number of closed loops met when following successors (executable helper, not proved). -/
+partial def countLoops (ss : List Seg) (todo : List Nat) (seen : List Nat) (n : Nat) : Nat :=
+  match todo with
+  | [] => n
+  | v :: rest =>
+    if seen.contains v then countLoops ss rest seen n else
+    let rec follow (w : Nat) (seen : List Nat) (fuel : Nat) : List Nat :=
+      if fuel = 0 || seen.contains w then seen else
+      match succOf ss w with
+      | some x => follow x (w :: seen) (fuel - 1)
+      | none => w :: seen
+    countLoops ss rest (follow v seen (ss.length + 1)) (n + 1)
+
+def loops (ss : List Seg) : Nat := countLoops ss (segVerts ss) [] 0
+
+/-- Exactly colinear with the same direction (what `EliminateColinear` removes when the
+coordinates are coarse dyadics). -/
+def colinearAt (cs : Array (Option P2)) (ss : List Seg) (v : Nat) : Bool :=
+  match prevOf ss v, succOf ss v with
+  | some p, some n =>
+    let a := at2 cs p; let b := at2 cs v; let c := at2 cs n
+    let d1 : P2 := ⟨b.x - a.x, b.y - a.y⟩
+    let d2 : P2 := ⟨c.x - b.x, c.y - b.y⟩
+    V2.cross d1 d2 == 0 && d1.x * d2.x + d1.y * d2.y > 0
+  | _, _ => false
+
+def chaikinModel (cs : Array (Option P2)) (ss : List Seg) : List CSeg :=
+  ss.flatMap fun s =>
+    let p := at2 cs s.1; let q := at2 cs s.2
+    let mp1 := chaikinPoint p q
+    let mp2 := chaikinPoint q p
+    match succOf ss s.2 with
+    | some r => [(mp1, mp2), (mp2, chaikinPoint q (at2 cs r))]
+    | none => [(mp1, mp2)]
+
+def iter {α} (f : α → α) : Nat → α → α
+  | 0, x => x
+  | n + 1, x => iter f n (f x)
+
+/-- Chaikin on coordinate soups directly (for several iterations). -/
+def chaikinC (ss : List CSeg) : List CSeg :=
+  ss.flatMap fun s =>
+    let mp1 := chaikinPoint s.1 s.2
+    let mp2 := chaikinPoint s.2 s.1
+    match ss.find? (fun t => t.1 == s.2) with
+    | some t => [(mp1, mp2), (mp2, chaikinPoint t.1 t.2)]
+    | none => [(mp1, mp2)]
+
+def nbrs2 (ss : List Seg) (v : Nat) : List Nat :=
+  (ss.filter fun s => s.1 == v || s.2 == v).flatMap fun s => [s.1, s.2].filter (· != v)
+
+def handle2 (l : Line) : Option String := do
+  let inp ← l.inp.mapM parseSeg
+  if l.status ≠ "ok" then
+    return (if l.status = "timeout" then "FAIL terminates=0" else "FAIL no-panic=0")
+  let out ← l.out.mapM parseSeg
+  let vin := segVerts inp
+  let vout := segVerts out
+  let base : List (String × Bool) := [("closed-curves", closedCurves out), ("same-loops", loops out == loops inp)]
+  let cs ← parseCoords2 l.coords #[]
+  let hasGeom := l.params.contains "geom"
+  match l.kind with
+  | "init2" => some (verdict [("closed-curves", closedCurves inp)])
+  | "decimate2" =>
+    let maxV ← (← l.params.head?).toNat?
+    some (verdict (base ++ [("no-new-vertices", subset vout vin),
+      ("vertex-budget", vout.length ≤ max (maxV + 3 * loops inp) 0 || vout.length == vin.length && vin.length ≤ maxV)]))
+  | "elimcolinear2" =>
+    let geom := if l.params.contains "area" then
+        [("area-equal", area2 (toC2 cs out) == area2 (toC2 cs inp)),
+         ("no-colinear-vertex-left", vout.all fun v => !colinearAt cs out v),
+         ("only-colinear-removed", vin.all fun v => vout.contains v || colinearAt cs inp v)] else []
+    some (verdict (base ++ [("no-new-vertices", subset vout vin)] ++ geom))
+  | "subdivide2" =>
+    let it ← (← l.params.head?).toNat?
+    let geom := if hasGeom then [("chaikin-masks", sameSegs (iter chaikinC it (toC2 cs inp)) (toC2 cs out))] else []
+    some (verdict (base ++ [("segments=2^k·E", out.length == 2 ^ it * inp.length)] ++ geom))
+  | "smooth2" | "smoothsq2" =>
+    if l.params.contains "noninj" then
+      return verdict [("claimed-noninjective", decide (vout.length < vin.length))]
+    some (verdict (base ++ [("same-segments", out.length == inp.length), ("same-vertex-count", vout.length == vin.length)]))
+  | "blur2" =>
+    let geom ← if hasGeom then do
+        let rate ← parseRat (← l.params[1]?)
+        let pt := fun v => blurPoint2 rate (at2 cs v) ((nbrs2 inp v).map (at2 cs))
+        pure [("blur-rule", sameSegs (inp.map fun s => (pt s.1, pt s.2)) (toC2 cs out))]
+      else pure []
+    if l.params.contains "noninj" then
+      return verdict ([("claimed-noninjective", decide (vout.length < vin.length))] ++ geom)
+    some (verdict (base ++ [("same-segments", out.length == inp.length), ("same-vertex-count", vout.length == vin.length)] ++ geom))
+  | _ => none
+
+def handleAll (ws : List String) : Option String := do
+  let l ← parseLine ws
+  if l.kind.endsWith "3" then handle3 l
+  else if l.kind.endsWith "2" then handle2 l
+  else none
 
 end M3d.Drv.C10
